@@ -199,7 +199,7 @@ def h2Head (o : Opts) (method path authority : Bytes) (flds : List (Bytes × Byt
     if method = ofString "CONNECT" then .err 400 else
     if path.head? ≠ some slash && !(path = [42] && method = ofString "OPTIONS") then .err 400 else
     let badTarget : Bool :=
-      if o.headerStrict then (if o.ctrlsReject then false else path.any uriCharInvalidStrict)
+      if o.headerStrict then (if o.ctrlsReject then fragmentInvalidStrict path else path.any uriCharInvalidStrict)
       else path.any fun c => c = 0 || c = cr || c = lf
     if badTarget then .err 400 else
     -- fields (the generator only writes lower-case token names)
